@@ -213,6 +213,25 @@ def r2(ctx):
             for l2 in leaves(fn, cv['args'][1]):
                 cond_leaves.setdefault(l2, set())
                 cond_leaves[l2] |= bitcounts(fn, c)
+        # a key part is written with all its bits: an integer of 32 bits (divisor, range bound) is not cast to a narrower
+        # type on its way into the key - two values that differ above the cut share one cached type
+        narrowed = []
+        for c in fn.all('CXXOperatorCallExpr'):
+            cv = fn.nodes[c]
+            if cv.get('op') != '<<' or len(cv.get('args', [])) != 2:
+                continue
+            a = cv['args'][1]
+            y = a
+            while True:
+                yv = fn.nodes[y]
+                if yv['k'] in ('ParenExpr', 'ImplicitCastExpr', 'CStyleCastExpr', 'CXXStaticCastExpr', 'CXXFunctionalCastExpr') and yv.get('ch'):
+                    src = fn.nodes[fn.strip(yv['ch'][0], casts=True)]
+                    if yv.get('w') and src.get('w') and yv['w'] < min(src['w'], 32) and src.get('k') in ('DeclRefExpr', 'MemberExpr') and \
+                            not src.get('bool') and fn.val(yv['ch'][0]) is None:
+                        narrowed.append('%s written as %d bit' % (fn.key(fn.strip(yv['ch'][0], casts=True)), yv['w']))
+                    y = yv['ch'][0]
+                else:
+                    break
         # bit counts for which an object is constructed at all in this overload
         built = set()
         for n in news:
@@ -240,6 +259,9 @@ def r2(ctx):
                     if l not in keyleaves:
                         missing.append(l)
             missing = sorted(set(missing))
+            if narrowed:
+                ctx.ob('C12.R2', fn, n, False, 'key parts of derive(%s)' % ','.join(p['name'] for p in fn.params[:-1]),
+                       'a key part is narrowed before it is written into the key: %s' % '; '.join(sorted(set(narrowed))))
             ctx.ob('C12.R2', fn, n, not missing,
                    'new NumberDataType in derive(%s)' % ','.join(p['name'] for p in fn.params[:-1]),
                    ('constructor argument(s) %s vary independently of the cache key (key covers %s, a conditional key part '
